@@ -1256,3 +1256,90 @@ def continue_guards_to_blocks(model):
                         changed = True
                         break
     return n
+
+
+def unroll_const_loops(body, max_rounds=16):
+    """A copy of `body` in which every `for (T i = c0; i < c1; i++)` with literal bounds (and a body that does not assign i,
+    break or continue) is replaced by its rounds with i substituted, and subscripts of constant local arrays with a
+    literal index (`const T a[] = {x, y, z}; ... a[1]`) by the initialiser.  Used by rules that evaluate small predicates."""
+    from .astutil import int_value
+    body = copy.deepcopy(body)
+
+    def subst(n, vid, k):
+        for x in walk(n):
+            ch = x.get("inner")
+            if not ch:
+                continue
+            for i_, c in enumerate(ch):
+                c0 = c
+                if c0["kind"] == "DeclRefExpr" and c0["ref"].get("id") == vid:
+                    ch[i_] = {"kind": "IntegerLiteral", "value": str(k), "type": c0.get("type", "int"), "inner": []}
+                elif c0["kind"] == "ImplicitCastExpr" and kids(c0) and kids(c0)[0]["kind"] == "DeclRefExpr" and kids(c0)[0]["ref"].get("id") == vid:
+                    ch[i_] = {"kind": "IntegerLiteral", "value": str(k), "type": c0.get("type", "int"), "inner": []}
+
+    def unroll(n):
+        ch = n.get("inner")
+        if not ch:
+            return
+        out = []
+        for c in ch:
+            unroll(c)
+            if c["kind"] == "ForStmt":
+                k_ = kids(c)
+                init, cond, inc, b_ = k_[0], k_[2], k_[3], k_[4]
+                vds = [d for d in walk(init) if d["kind"] == "VarDecl" and kids(d)]
+                c0 = strip(cond, casts=True) if cond.get("kind") != "Null" else None
+                i0 = strip(inc, casts=True) if inc.get("kind") != "Null" else None
+                if len(vds) == 1 and c0 is not None and c0["kind"] == "BinaryOperator" and c0.get("opcode") in ("<", "<=") and i0 is not None \
+                        and i0["kind"] == "UnaryOperator" and i0.get("opcode") == "++":
+                    v = vds[0]
+                    lo = int_value(strip(kids(v)[0], casts=True))
+                    hi = int_value(strip(kids(c0)[1], casts=True))
+                    lhs = strip(kids(c0)[0], casts=True)
+                    stepv = strip(kids(i0)[0], casts=True)
+                    writes = any(y["kind"] in ("BinaryOperator", "CompoundAssignOperator", "UnaryOperator") and
+                                 y.get("opcode") in ("=", "+=", "-=", "++", "--") and
+                                 strip(kids(y)[0], casts=True).get("ref", {}).get("id") == v["id"] for y in walk(b_))
+                    jumps = any(y["kind"] in ("BreakStmt", "ContinueStmt") for y in walk(b_))
+                    if lo is not None and hi is not None and lhs["kind"] == "DeclRefExpr" and lhs["ref"].get("id") == v["id"] and \
+                            stepv["kind"] == "DeclRefExpr" and stepv["ref"].get("id") == v["id"] and not writes and not jumps:
+                        last = hi if c0["opcode"] == "<=" else hi - 1
+                        if 0 <= last - lo < max_rounds:
+                            for k in range(lo, last + 1):
+                                rb = copy.deepcopy(b_)
+                                holder = {"kind": "CompoundStmt", "inner": [rb]}
+                                subst(holder, v["id"], k)
+                                out.append(holder["inner"][0])
+                            continue
+            out.append(c)
+        n["inner"] = out
+    unroll(body)
+    # constant local arrays indexed by literals
+    arrays = {}
+    for d in walk(body):
+        if d["kind"] == "VarDecl" and kids(d) and kids(d)[0]["kind"] == "InitListExpr" and "[" in (d.get("type") or ""):
+            arrays[d["id"]] = kids(kids(d)[0])
+    if arrays:
+        assigned = set()
+        for y in walk(body):
+            if y["kind"] in ("BinaryOperator", "CompoundAssignOperator") and y.get("opcode", "").endswith("=") and y.get("opcode") not in ("==", "!=", "<=", ">="):
+                t = strip(kids(y)[0], casts=True)
+                if t["kind"] == "ArraySubscriptExpr":
+                    b0 = strip(kids(t)[0], casts=True)
+                    if b0["kind"] == "DeclRefExpr":
+                        assigned.add(b0["ref"].get("id"))
+        for x in walk(body):
+            ch = x.get("inner")
+            if not ch:
+                continue
+            for i_, c in enumerate(ch):
+                c0 = c
+                while c0["kind"] in ("ImplicitCastExpr", "ParenExpr") and kids(c0):
+                    c0 = kids(c0)[0]
+                if c0["kind"] == "ArraySubscriptExpr":
+                    b0 = strip(kids(c0)[0], casts=True)
+                    ix = int_value(strip(kids(c0)[1], casts=True))
+                    if b0["kind"] == "DeclRefExpr" and b0["ref"].get("id") in arrays and b0["ref"]["id"] not in assigned \
+                            and ix is not None and 0 <= ix < len(arrays[b0["ref"]["id"]]):
+                        ch[i_] = copy.deepcopy(arrays[b0["ref"]["id"]][ix])
+    return body
